@@ -69,9 +69,11 @@ Illegal(p, f) ==
   ELSE IF f # BestOf(net) THEN {"Optimal"}
   ELSE {}
 
+RunReached(a) == IF Run.cst = 1 THEN a * Run.cden > Run.cnum * Total ELSE a * Run.cden >= Run.cnum * Total
+
 SeqClauses(f) ==
      (IF k < Run.numpaths THEN {} ELSE {"RespectsNumPaths"})
-  \cup (IF acc * Run.cden < Run.cnum * Total THEN {} ELSE {"RespectsCutoff"})
+  \cup (IF ~RunReached(acc) THEN {} ELSE {"RespectsCutoff"})
   \cup (IF k = 0 \/ f <= lastf THEN {} ELSE {"NonIncreasing"})
   \cup (IF acc + f <= Total THEN {} ELSE {"SumWithinTotal"})
 
@@ -95,11 +97,11 @@ PeelAndRemove ==
 
 EndClauses ==
      (IF \/ k >= Run.numpaths
-         \/ acc * Run.cden >= Run.cnum * Total
+         \/ RunReached(acc)
          \/ ~HasPathOf(net)
       THEN {} ELSE {"StopsForAReason"})
-  \cup (IF (Run.scheme = "subtract" /\ Run.numpaths = None /\ TPTFlow(Case.W, S, T))
-            => acc * Run.cden >= Run.cnum * Total
+  \cup (IF (Run.scheme = "subtract" /\ Run.numpaths = None /\ TPTFlow(Case.W, S, T) /\ Total > 0)
+            => RunReached(acc)
         THEN {} ELSE {"ReachesFraction"})
   \cup (IF Run.after = Case.W THEN {} ELSE {"CallerMatrixUntouched"})
   \cup (IF Len(Run.fluxes) = Len(Run.paths) THEN {} ELSE {"RespectsNumPaths"})
